@@ -91,6 +91,7 @@ func checkC04(c *Ctx) {
 		return false
 	})
 
+	c.checkChainScoped("C04.key-shape", func(pn string) bool { return pn != "LastExternalBlockHeightKey" })
 	r.Min("C04.value-semantics", 1)
 	c.checkValueSemantics("C04.value-semantics")
 
